@@ -22,7 +22,7 @@ pub enum TruthTableFromCsvError {
     NonBooleanCellValue { actual: String },
     #[error("Couldn't get last column of boolean function outputs.")]
     NoOutputColumn,
-    #[error("Expected table with {variable_count} variables to contain {} rows, found {actual_row_count} rows", 2_usize.pow(*variable_count as u32))]
+    #[error("Expected table with {variable_count} variables to contain {} rows, found {actual_row_count} rows", expected_row_count(*variable_count))]
     MismatchedRecordCountAndVariableCount {
         variable_count: usize,
         actual_row_count: usize,
@@ -33,6 +33,14 @@ pub enum TruthTableFromCsvError {
     ParsingError(#[from] csv::Error),
     #[error(transparent)]
     IOError(#[from] io::Error),
+}
+
+/// The row count of a table with `variable_count` variables; written as a power if it does not fit `usize`.
+fn expected_row_count(variable_count: usize) -> String {
+    u32::try_from(variable_count)
+        .ok()
+        .and_then(|exponent| 2_usize.checked_pow(exponent))
+        .map_or_else(|| format!("2^{variable_count}"), |count| count.to_string())
 }
 
 #[cfg(feature = "python")]
